@@ -63,8 +63,59 @@ def cyclic_models():
             spec[qb_] = ("nor", [s_, q_])
             outs.append(q_)
         yield f"three-latches::naming{ni}", build(spec, outputs=outs)
+    # two independent loops, each closed through an inverting single-input node (and the 1-input forms of nand / nor / xnor)
+    for t1, t2 in (("not", "not"), ("nand", "nor"), ("xnor", "not"), ("not", "buf")):
+        yield f"two-independent-inverter-loops::{t1}-{t2}", build({"a": ("input", []), "b": ("input", []), "g1": ("nand", ["a", "n1"]), "n1": (t1, ["g1"]), "g2": ("nor", ["b", "n2"]), "n2": (t2, ["g2"]),
+                                                                    "o": ("xor", ["g1", "g2"])}, outputs=["o", "n1", "g2"])
     yield "hold-loops", build({"en": ("input", []), "d": ("input", []), "m": ("or", ["m_hold", "d"]), "m_hold": ("and", ["en", "m"]), "n": ("and", ["n_hold", "d"]), "n_hold": ("or", ["en", "n"])}, outputs=["m", "n"])
     yield "acyclic-control", build({"a": ("input", []), "b": ("input", []), "g": ("nand", ["a", "b"]), "h": ("nor", ["g", "a"])}, outputs=["h"])
+
+
+def topology_family(tier):
+    """Every cyclic wiring of k gates (k = 3; a 1:5 (quick) / 1:2 (thorough) sample of k = 4), no self-loops, under several
+    type vectors; every multi-input gate also reads an input of its own, single-input gates (`not`, `buf`) read one gate
+    (or their own input when no gate drives them).  The feedback-set heuristic sees every small loop structure this way:
+    nested loops, loops sharing nodes, independent loops, sinks and sources hanging off loops."""
+    vectors = {3: [("or", "and", "or"), ("nand", "nor", "nand"), ("not", "nand", "buf"), ("nor", "not", "xor")],
+               4: [("and", "or", "and", "or"), ("not", "nand", "not", "nor"), ("nand", "buf", "nor", "not")]}
+    for k in (3, 4):
+        pairs = [(i, j) for i in range(k) for j in range(k) if i != j]
+        step = 1 if k == 3 else (5 if tier == "quick" else 2)
+        for mask in range(1, 1 << len(pairs), step):
+            edges = [pairs[b] for b in range(len(pairs)) if mask >> b & 1]
+            # cyclic?
+            succ = {i: [j for (x, j) in edges if x == i] for i in range(k)}
+            def reach(a, b, seen=None):
+                seen = seen or set()
+                for y in succ[a]:
+                    if y == b or (y not in seen and not seen.add(y) and reach(y, b, seen)):
+                        return True
+                return False
+            if not any(reach(i, i) for i in range(k)):
+                continue
+            if k == 4 and len(edges) > 6:
+                continue
+            for vi, vec in enumerate(vectors[k]):
+                if k == 4 and (mask // step + vi) % 3:
+                    continue  # one type vector per sampled 4-node wiring, rotating
+                spec = {}
+                outs = []
+                for i in range(k):
+                    t = vec[i]
+                    preds = [f"g{x}" for (x, j) in edges if j == i]
+                    if t in ("not", "buf"):
+                        fi = preds[:1] or [f"i{i}"]
+                    else:
+                        fi = preds + [f"i{i}"]
+                    for f in fi:
+                        if f.startswith("i"):
+                            spec[f] = ("input", [])
+                    spec[f"g{i}"] = (t, fi)
+                    outs.append(f"g{i}")
+                c = build(spec, outputs=outs)
+                if not c.is_cyclic():
+                    continue  # the single-input gates dropped the loop
+                yield f"topology::k{k}::edges{mask:x}::{'-'.join(vec)}", c
 
 
 def ordered(order, types, edges, outputs):
@@ -185,7 +236,7 @@ def run(chk):
     # ---- S: template evaluation ----------------------------------------
     P = Package(repo)
     n = 0
-    for name, c in cyclic_models():
+    for name, c in itertools.chain(cyclic_models(), topology_family(chk.tier)):
         snap = c._snapshot()
         r = P.call(FILE, "acyclic_unroll", c)
         n += 1
